@@ -41,5 +41,10 @@ def tasks(ctx):
     return filter_tasks(ts)
 
 
+# components whose representation invariants the lemmas above assume in every reachable state (engine/closure.py adds
+# the preservation obligations of all their functions)
+tasks.invariant_packages = ('serial',)
+
+
 def run(tier, seed):
     return run_property("C23", tasks, "proof", tier, seed, ASSUME, TRUSTED)
